@@ -10,7 +10,7 @@ wt="$(mktemp -d /tmp/vq-seed-XXXXXX)"
 git -C /repo worktree add -q --detach "$wt" HEAD || exit 2
 trap 'git -C /repo worktree remove --force "$wt" >/dev/null 2>&1' EXIT
 ( cd "$wt" && PYTHONPATH="$wt/src" /venv/bin/python "$d/demo.py" >/dev/null 2>&1 ); echo "demo_without_patch rc=$?"
-if ! git -C "$wt" apply "$d/patch.diff"; then echo "patch_applies no"; exit 3; fi
+if ! git -C "$wt" apply "$d/patch.diff" 2>/dev/null && ! git -C "$wt" apply -3 "$d/patch.diff"; then echo "patch_applies no"; exit 3; fi
 echo "patch_applies yes"
 ( cd "$wt" && PYTHONPATH="$wt/src" /venv/bin/python -m pytest -q -p no:cacheprovider -n 8 2>&1 | tail -1 | sed 's/^/repo_tests: /' )
 ( cd "$wt" && PYTHONPATH="$wt/src" /venv/bin/python "$d/demo.py" >/dev/null 2>&1 ); echo "demo_with_patch rc=$?"
